@@ -53,14 +53,16 @@ def cmd_import(name, wt, pid, needs):
     if not demo:
         raise SystemExit("no demo script")
     shutil.copy(os.path.join(wt, demo[0]), os.path.join(d, demo[0]))
-    env = dict(os.environ, PYTHONPATH=wt, PYTHONWARNINGS="ignore")
+    env = dict(os.environ, PYTHONPATH=wt, PYTHONWARNINGS="ignore", OMP_NUM_THREADS="1", MKL_NUM_THREADS="1")
     t0 = time.time()
     r1 = sh([PY, demo[0]], cwd=wt, env=env)
-    sh(["git", "-C", wt, "stash"])
+    # unmodified code: reverse-apply the patch (git stash is shared between worktrees - never use it here)
+    pfile = os.path.join(d, "patch.diff")
+    sh(["git", "-C", wt, "apply", "-R", pfile])
     try:
         r0 = sh([PY, demo[0]], cwd=wt, env=env)
     finally:
-        sh(["git", "-C", wt, "stash", "pop"])
+        sh(["git", "-C", wt, "apply", pfile])
     meta = {"name": name, "property": pid, "demo": demo[0], "needs_to_manifest": needs,
             "demo_with_patch_rc": r1.returncode, "demo_without_patch_rc": r0.returncode,
             "demo_with_patch_tail": r1.stdout[-600:], "demo_without_patch_tail": r0.stdout[-300:],
@@ -75,7 +77,7 @@ def cmd_suite(name):
     wt = scratch_with_patch(os.path.join(d, "patch.diff"))
     try:
         t0 = time.time()
-        r = sh(f"cd {wt} && PYTHONPATH={wt} {PY} -m pytest -q -p no:cacheprovider -n 6 --timeout=900 test 2>&1 | tail -3")
+        r = sh(f"cd {wt} && OMP_NUM_THREADS=1 MKL_NUM_THREADS=1 PYTHONPATH={wt} {PY} -m pytest -q -p no:cacheprovider -n 6 --timeout=900 test 2>&1 | tail -3")
         tail = r.stdout.strip().splitlines()[-1] if r.stdout.strip() else ""
         meta = json.load(open(os.path.join(d, "meta.json")))
         meta["suite_with_patch"] = tail
